@@ -285,19 +285,18 @@ Qed.
 Theorem segment_set_spec (segs : list (V * V)) (i j : nat) (si sj : V * V) :
   Forall proper segs -> (i < j)%nat ->
   nth_error segs i = Some si -> nth_error segs j = Some sj ->
-  let small := small_tol R RO (fst si) (snd si) (skipn (S i) segs) in
   exists d2 p q sc tc,
     sset_entry R RO segs i j = Ok (d2, p) /\ sset_entry R RO segs j i = Ok (d2, q) /\
     0 <= sc <= 1 /\ 0 <= tc <= 1 /\
     p = vaddR (fst si) (vscaleR sc (vsubR (snd si) (fst si))) /\
     q = vaddR (fst sj) (vscaleR tc (vsubR (snd sj) (fst sj))) /\
     d2 = normsqR (vsubR p q) /\
-    (off_band R RO small (fst si) (snd si) (fst sj) (snd sj) = true ->
+    (off_band R RO (fst si) (snd si) (fst sj) (snd sj) = true ->
      forall s t, 0 <= s <= 1 -> 0 <= t <= 1 ->
        d2 <= normsqR (vsubR (vaddR (fst si) (vscaleR s (vsubR (snd si) (fst si))))
                             (vaddR (fst sj) (vscaleR t (vsubR (snd sj) (fst sj)))))).
 Proof.
-  intros Hall Hij Hi Hj small.
+  intros Hall Hij Hi Hj.
   assert (Hpi : proper si).
   { rewrite Forall_forall in Hall. apply Hall. eapply nth_error_In; eauto. }
   assert (Hpj : proper sj).
@@ -321,8 +320,7 @@ Proof.
   rewrite (upper_nth segs i si Hi), Hrow.
   repeat split; try tauto; try lra.
   intros Hoff s t Hs01 Ht01.
-  apply (seg_seg_optimal small (fst si) (snd si) (fst sj) (snd sj) d2 p q sc tc); auto.
-  apply small_tol_pos; [destruct si; exact Hpi | exact Hrest].
+  apply (seg_seg_optimal (fst si) (snd si) (fst sj) (snd sj) d2 p q sc tc); auto.
 Qed.
 
 Lemma segment_set_diag (segs : list (V * V)) (i : nat) (si : V * V) :
@@ -335,15 +333,14 @@ Theorem seg_seg_set_optimal (a b : V) (set : list (V * V)) :
   proper (a, b) -> Forall proper set -> off_band_set R RO a b set = true ->
   forall s0, In s0 set ->
     forall dist2 cp1 cp2 sc tc,
-      seg_seg R RO (small_tol R RO a b set) a b (fst s0) (snd s0) = Ok (dist2, cp1, cp2, sc, tc) ->
+      seg_seg R RO a b (fst s0) (snd s0) = Ok (dist2, cp1, cp2, sc, tc) ->
       forall s t, 0 <= s <= 1 -> 0 <= t <= 1 ->
         dist2 <= normsqR (vsubR (vaddR a (vscaleR s (vsubR b a)))
                                 (vaddR (fst s0) (vscaleR t (vsubR (snd s0) (fst s0))))).
 Proof.
   intros Ha Hall Hoff s0 Hs0 dist2 cp1 cp2 sc tc E.
-  unfold off_band_set in Hoff. cbv zeta in Hoff. rewrite forallb_forall in Hoff.
-  apply (seg_seg_optimal (small_tol R RO a b set) a b (fst s0) (snd s0) dist2 cp1 cp2 sc tc).
-  - apply small_tol_pos; auto.
+  unfold off_band_set in Hoff. rewrite forallb_forall in Hoff.
+  apply (seg_seg_optimal a b (fst s0) (snd s0) dist2 cp1 cp2 sc tc).
   - exact Ha.
   - rewrite Forall_forall in Hall. exact (Hall s0 Hs0).
   - exact (Hoff s0 Hs0).
